@@ -1420,7 +1420,54 @@ func unpct(s string) string {
 	return string(b)
 }
 
+// c01Siblings: several assertions in one unsigned Response, each with its own signature state and its own validity — a verified
+// signature speaks for the element it is on: a genuinely signed assertion that is stale, addressed elsewhere or answers
+// another request does not vouch for an unsigned (or attacker-signed) sibling, before or after it, plaintext or encrypted
+func (c *Ctx) c01Siblings() {
+	now := ms(baseTime)
+	for _, order := range []string{"stale-first", "stale-last"} {
+		for _, defect := range []string{"expired", "other-request", "other-recipient", "other-audience", "not-yet-valid"} {
+			for _, wrap := range []string{"p", "e"} {
+				for _, forgedSig := range []string{"none", "attacker"} {
+					cfg := baseCfg()
+					r := baseResp(cfg, now)
+					r.Sig = "none"
+					genuine := r.Entries[0]
+					genuine.Sig, genuine.Wrap, genuine.Ident = "idp", wrap, "alice-genuine"
+					subj := append([]SConf{}, (*genuine.Subject)...)
+					d := *subj[0].Data
+					cond := *genuine.Cond
+					switch defect {
+					case "expired":
+						cond.NOA = now - cfg.Skew - 1000
+					case "other-request":
+						d.IRT = "id-some-older-request"
+					case "other-recipient":
+						d.Recipient = "https://other-sp.example.com/saml/acs"
+					case "other-audience":
+						cond.Auds = []string{"https://other-sp.example.com/metadata"}
+					case "not-yet-valid":
+						cond.NB = now + cfg.Skew + 1000
+					}
+					subj[0].Data = &d
+					genuine.Subject, genuine.Cond = &subj, &cond
+					forged := baseResp(cfg, now).Entries[0]
+					forged.Sig, forged.Ident = forgedSig, "mallory-forged"
+					if order == "stale-first" {
+						r.Entries = []Assn{genuine, forged}
+					} else {
+						r.Entries = []Assn{forged, genuine}
+					}
+					c.count("c01-siblings", order+"/"+defect+"/"+wrap+"/"+forgedSig)
+					c.runSP(spCase{cfg: cfg, now: now, ids: []string{"id-req1"}, url: cfg.Acs, r: r, lex: 0, entry: "xml"})
+				}
+			}
+		}
+	}
+}
+
 func (c *Ctx) genC01() {
+	defer c.c01Siblings()
 	// honest documents and every single operation on every layout first (unconditional), then random scripts
 	for i := 0; i < 40; i++ {
 		c.xswCase(0, nil, -1)
